@@ -3,7 +3,7 @@
    offsets delimit exactly acompose a. *)
 From Coq Require Import List NArith Bool Arith.
 Import ListNotations.
-Require Import V.Regex V.Parse V.ParseProofs V.Auth V.AuthProofs V.Splice V.Setters V.AuthMut V.AuthMutProofs V.AuthValues V.AuthMutProofs2.
+Require Import V.Regex V.Parse V.ParseProofs V.Auth V.AuthProofs V.Splice V.Setters V.AuthMut V.AuthMutProofs V.AuthValues V.AuthMutProofs2 V.Abnf V.BridgePaths V.C03Bridge V.C11Valid.
 Local Open Scope nat_scope.
 
 (* under the invariant the handle views exactly the authority text (reads through the handle are coherent) *)
@@ -36,6 +36,21 @@ Theorem C11_history : forall ops h a before after, Inv h a before after -> wf_ap
   exists h', arun ops h = Some h' /\ Inv h' (fold_left aupdate ops a) before after /\ view h' = acompose (fold_left aupdate ops a).
 Proof. exact history. Qed.
 Print Assumptions C11_history.
+
+(* AT THE LEVEL OF THE RFC GRAMMAR: a handle that views a string s of the authority language (inside any buffer),
+   after ANY finite history of set_userinfo / set_host / set_port calls whose arguments are valid values of their
+   component types (or removals), views a string of the authority language again -- no call panics.  (Factorisation
+   of the authority grammar in both directions + C11_history.) *)
+Theorem C11_history_valid_URI : forall ops h s before after, L (iauthority U) s -> Forall (varg U) ops ->
+  h_data h = before ++ s ++ after -> h_start h = length before -> h_end h = length before + length s ->
+  exists h', arun ops h = Some h' /\ L (iauthority U) (view h').
+Proof. exact history_valid_U. Qed.
+Print Assumptions C11_history_valid_URI.
+Theorem C11_history_valid_IRI : forall ops h s before after, L (iauthority I) s -> Forall (varg I) ops ->
+  h_data h = before ++ s ++ after -> h_start h = length before -> h_end h = length before + length s ->
+  exists h', arun ops h = Some h' /\ L (iauthority I) (view h').
+Proof. exact history_valid_I. Qed.
+Print Assumptions C11_history_valid_IRI.
 
 (* non-vacuity and the two other editors on a concrete history through ONE handle:
    s://u@h:1/p  --set_userinfo(longer-user)--> --set_host([::1])--> --set_port(None)--> *)
